@@ -11,8 +11,9 @@ CONSTANTS
   SrcNeedsWs = FALSE
   EmptyRaises = FALSE
   Emit = FALSE
-  Objs = {1, 2}
-  Rich = 0
+  Objs = {o1, o2}
+  OFields = {"src"}
+  Rich = 2
   SharedMemo = FALSE
   EmitObj = FALSE
 SPECIFICATION OSpec
@@ -21,5 +22,5 @@ INVARIANT MemoSound
 INVARIANT NoGhostMemo
 PROPERTY ResSound
 VIEW OView
-INVARIANT PaletteDecided
+SYMMETRY ObjSym
 CHECK_DEADLOCK FALSE
